@@ -97,10 +97,21 @@ def shape_background(v):
   r3.set_style(SP.BackgroundColor, sp.ColorType((0, 0, 0, 0)))
   if v("gab") is not None or v("gae") is not None:
     r3.add_animation_step(m.DiscreteAnimationStep(SP.BackgroundColor, v("gab"), v("gae"), sp.NamedColors.green.value))
+  if v("oab") is not None or v("oae") is not None:
+    # a region without content whose red background is made visible ONLY by an animation of tts:opacity (0 specified, 1 for a while)
+    r4 = m.Region("r4", d); d.put_region(r4)
+    r4.set_style(SP.BackgroundColor, sp.NamedColors.red.value)
+    r4.set_style(SP.Opacity, 0)
+    r4.add_animation_step(m.DiscreteAnimationStep(SP.Opacity, v("oab"), v("oae"), 1))
   body = m.Body(d); body.set_id(nid()); d.set_body(body)
   div = m.Div(d); div.set_id(nid()); body.push_child(div)
+  if v("oab") is not None or v("oae") is not None:
+    from fractions import Fraction as F
+    p4 = m.P(d); p4.set_id("p4"); p4.set_region(d.get_region("r4")); p4.set_begin(F(100)); p4.set_end(F(102)); div.push_child(p4)      # its only text, at a fixed late time
+    s4 = m.Span(d); s4.set_id("s4"); p4.push_child(s4); s4.push_child(m.Text(d, "late"))
   p1 = m.P(d); p1.set_id(nid()); p1.set_region(r1); p1.set_begin(v("pb")); p1.set_end(v("pe")); div.push_child(p1)
   s1 = m.Span(d); s1.set_id(nid()); p1.push_child(s1); s1.push_child(m.Text(d, "one"))
+  s1.set_style(SP.BackgroundColor, sp.NamedColors.transparent.value)      # the property's own default, SPECIFIED: it overrides the blue <initial> value
   p2 = m.P(d); p2.set_id(nid()); p2.set_region(r2); div.push_child(p2)
   s2 = m.Span(d); s2.set_id(nid()); p2.push_child(s2); s2.push_child(m.Text(d, "open"))
   s3 = m.Span(d); s3.set_id(nid()); s3.set_begin(v("s3b")); s3.set_end(v("s3e")); p2.push_child(s3); s3.push_child(m.Text(d, "bounded"))
@@ -288,13 +299,18 @@ def shape_order(v):
   for k, (b, e, text) in enumerate((("p1b", "p1e", "one"), ("p2b", "p2e", "two"), ("p3b", "p3e", "three"))):
     p = m.P(d); p.set_id(nid()); p.set_region(rs[k]); p.set_begin(v(b)); p.set_end(v(e)); div.push_child(p)
     sp_ = m.Span(d); sp_.set_id(nid()); p.push_child(sp_); sp_.push_child(m.Text(d, text))
+  if v("p4b") is not None or v("p4e") is not None:
+    # a fourth paragraph (in r1) that holds nothing but an IDEOGRAPHIC SPACE on a black background: not white space for TTML, so it is
+    # content like any other and keeps its region alive while it is active
+    p = m.P(d); p.set_id(nid()); p.set_region(rs[0]); p.set_begin(v("p4b")); p.set_end(v("p4e")); div.push_child(p)
+    sp_ = m.Span(d); sp_.set_id(nid()); sp_.set_style(SP.BackgroundColor, sp.NamedColors.black.value); p.push_child(sp_); sp_.push_child(m.Text(d, "\u3000"))
   return d
 
 
 SHAPES = {"order": shape_order, "moving": shape_moving, "styled": shape_styled, "twop": shape_twop, "brset": shape_brset, "rubyparts": shape_rubyparts, "ruby": shape_ruby, "nested": shape_nested, "regions": shape_regions, "display": shape_display, "background": shape_background}
 # which of the timing variables are present (None otherwise); a few masks per shape keep the path count moderate
 MASKS = {
-  "order": [("p1b", "p2b", "p3b"), ("p1b", "p1e", "p2b", "p2e"), ("p1e", "p2b", "p3e")],
+  "order": [("p1b", "p2b", "p3b"), ("p1b", "p1e", "p2b", "p2e"), ("p1e", "p2b", "p3e"), ("p1e", "p4b", "p4e")],
   "moving": [("ab", "ae"), ("ob", "oe")],
   "styled": [("ab", "ae"), ("pe", "ab")],
   "twop": [("b1", "e1"), ("e1", "b2"), ("b1", "e2")],
@@ -305,7 +321,7 @@ MASKS = {
   "regions": [("r1b", "r1e", "p1b", "p1e"), ("d2b", "d2e", "p3e"), ("r3b", "r1e", "d2e", "p1e"), ("r1b", "d2b", "p1b", "p3e")],
   "display": [("p1b", "p1e", "ab", "ae"), ("ab", "ae", "a2b"), ("cb", "ce", "s3b"), ("rab", "rae", "p1b"), ("p1e", "ae", "ce", "rae")],
   "ruby": [("db", "de", "rub", "rue"), ("pb", "pe", "rub"), ("r2b", "r2e", "p2b", "p2e"), ("p2e", "s9b", "s9e"), ("de", "pe", "rue", "s9e")],
-  "background": [("sab", "sae", "pb", "pe"), ("s3b", "s3e", "pe"), ("gab", "gae", "pe", "s3e"), ("r2b", "r2e", "s3e"), ("sab", "pe", "s3e")],
+  "background": [("sab", "sae", "pb", "pe"), ("s3b", "s3e", "pe"), ("gab", "gae", "pe", "s3e"), ("r2b", "r2e", "s3e"), ("sab", "pe", "s3e"), ("oab", "oae")],
 }
 
 
